@@ -440,7 +440,12 @@ func checkGo(name, src string) (*goChecked, error) {
 
 // varInitSeesOuter: some `var x … = …x…` inside a function whose right-hand x is (by Go's scope
 // rules) an OUTER x, not the one being declared.
-func varInitSeesOuter(g *goChecked) bool {
+func varInitSeesOuter(g *goChecked) bool { return len(varInitOuterIdents(g)) > 0 }
+
+// varInitOuterIdents: the identifiers inside `var x … = …x…` (local) that name the declared variable
+// but denote, by Go's scope rules, an outer entity.
+func varInitOuterIdents(g *goChecked) map[*goast.Ident]bool {
+	res := map[*goast.Ident]bool{}
 	found := false
 	goast.Inspect(g.file, func(n goast.Node) bool {
 		ds, ok := n.(*goast.DeclStmt)
@@ -461,6 +466,7 @@ func varInitSeesOuter(g *goChecked) bool {
 				goast.Inspect(v, func(m goast.Node) bool {
 					if id, ok := m.(*goast.Ident); ok && names[id.Name] && g.info.Uses[id] != nil {
 						found = true
+						res[id] = true
 					}
 					return true
 				})
@@ -468,7 +474,8 @@ func varInitSeesOuter(g *goChecked) bool {
 		}
 		return true
 	})
-	return found
+	_ = found
+	return res
 }
 
 func typeStr(t types.Type) string {
@@ -523,6 +530,7 @@ func compareWithGo(o *vh.Out, g *goChecked, c *checked, caseLine string) {
 			xdef[obj] = off(id.Pos())
 		}
 	}
+	selfInit := varInitOuterIdents(g)
 	cmp := func(id *goast.Ident, gobj types.Object, role string) {
 		if gobj == nil || id.Name == "_" {
 			return
@@ -551,7 +559,11 @@ func compareWithGo(o *vh.Out, g *goChecked, c *checked, caseLine string) {
 		}
 		if gp, ok1 := gdef[gobj]; ok1 {
 			if xp, ok2 := xdef[x.obj]; ok2 && gp != xp {
-				o.Oracle("ident-object-differs:declaration:"+kind, caseLine, fmt.Sprintf("identifier %s at offset %d: go/types resolves it to the declaration at offset %d, typesutil to the one at %d", id.Name, off(id.Pos()), gp, xp))
+				suffix := ""
+				if selfInit[id] {
+					suffix = ":var-initialiser-names-outer-variable"
+				}
+				o.Oracle("ident-object-differs:declaration:"+kind+suffix, caseLine, fmt.Sprintf("identifier %s at offset %d: go/types resolves it to the declaration at offset %d, typesutil to the one at %d", id.Name, off(id.Pos()), gp, xp))
 			} else if !ok2 {
 				o.Count("decl_of_object_not_in_defs")
 			}
